@@ -353,11 +353,6 @@ fn repeat_arange(t: &mut Tape, ctx: &mut Ctx, maxlen: usize) -> CheckResult {
         }
     }
     ensure!(ctx, r == want, "repeat", "repeat = {:?} want {:?}", r, want);
-    if !reps.is_empty() {
-        let short = &vals[..vals.len() - 1];
-        let rr = lib(|| mk(reps.clone()).repeat(short));
-        ensure!(ctx, rr.is_err(), "repeat", "repeat with unequal lengths did not panic");
-    }
     ctx.sub("segmented-arange");
     let sa = un(&mk(reps.clone()).segmented_arange());
     let mut want = vec![];
